@@ -245,7 +245,7 @@ def run_case(case):
 
 
 def gen_cases(tier, seed):
-    n = 48 if tier == "quick" else 800
+    n = 48 if tier == "quick" else 2000
     cases = []
     for i in range(n):
         rng = rng_for(seed, "c19", i)
